@@ -167,12 +167,12 @@ func isDenied(callee string) bool {
 
 // frameAllow: sites that are allowed with a stated reason (checked elsewhere or harmless by construction).
 var frameAllow = map[string]string{
-	"msgServer).RecordBeaconTimestamp|time.Now":           "unreachable: the contract of RecordBeaconTimestamp requires msg.SubmitTime != 0 (ValidateBasic postcondition) and the executor proves the call infeasible (obligation frame:denied-call)",
-	"app.BlockedAddresses|map-range":                      "builds a set; insertion order does not matter",
-	"app.GetMaccPerms|map-range":                          "copies a map; order does not matter",
+	"msgServer).RecordBeaconTimestamp|time.Now":             "unreachable: the contract of RecordBeaconTimestamp requires msg.SubmitTime != 0 (ValidateBasic postcondition) and the executor proves the call infeasible (obligation frame:denied-call)",
+	"app.BlockedAddresses|map-range":                        "builds a set; insertion order does not matter",
+	"app.GetMaccPerms|map-range":                            "copies a map; order does not matter",
 	"(*" + modPfx + "app.App).ModuleAccountAddrs|map-range": "builds a set; order does not matter",
-	"ante.checkWrkChainMaxSlots|map-range":                "returns an error of the same code whichever offending id is met first; no state change",
-	"ante.checkBeaconMaxSlots|map-range":                  "returns an error of the same code whichever offending id is met first; no state change",
+	"ante.checkWrkChainMaxSlots|map-range":                  "returns an error of the same code whichever offending id is met first; no state change",
+	"ante.checkBeaconMaxSlots|map-range":                    "returns an error of the same code whichever offending id is met first; no state change",
 }
 
 func allowed(fn *ssa.Function, what string) (string, bool) {
